@@ -1,6 +1,6 @@
 import subprocess
 tab=subprocess.run(["python3","/verif/selftest/mktable.py"],capture_output=True,text=True).stdout
-t=open('/tmp/design_tail.md').read()
+t=open('/verif/notes/design_tail.md').read()
 summary='''
 Quick tier: **18 of 30 caught** (C02-b, C03-a, C03-b, C05-b, C06-a, C07-a, C11-a, C11-b, C12-a, C13-a, C13-b, C14-a, C15-a,
 C17-a, C17-b, C19-a, C19-b, C20-a).  Four more (C02-a; C01-b = C08-b = C12-b, the same change found three times independently)
@@ -9,5 +9,5 @@ these seeds (each run costs 30-60 min and 20+ GB).  Eight are missed: C01-a (inc
 cannot finish), C05-a, C06-b, C07-b, C08-a, C14-b, C15-b, C20-b.  No check raised an alarm on the unchanged tree.
 '''
 t=t.replace("@@SEED_TABLE@@", tab+summary)
-open('/verif/DESIGN.md','w').write(open('/tmp/design_head.md').read()+t)
+open('/verif/DESIGN.md','w').write(open('/verif/notes/design_head.md').read()+t)
 print(len(t))
